@@ -33,6 +33,7 @@ class Env(object):
     def __init__(self):
         self.zone = "UTC"
         self.clock = 1700000000.0
+        self.span = 0.0          # simulated seconds covered by clock jumps
         self._real_time = _time.time
         self._installed = False
         self.fired = Counter()
@@ -68,6 +69,7 @@ class Env(object):
 
     def jump_clock(self, delta):
         self.clock += delta
+        self.span += abs(delta)
         self.fired["clock_jump"] += 1
 
 
